@@ -33,7 +33,7 @@ class WaitNEngine(LockEngine):
 
 def check_waitn_unlock(mod, rep, rid):
     """the client unlock of nsync_wait_n comes after the registration loop and under i == count"""
-    fn = mod.func('nsync_wait_n')
+    fn = waitn_body(mod)
     cfg = cfg_of(fn)
     enq = slot_calls(mod, fn, 'enqueue')
     if not enq:
@@ -63,6 +63,27 @@ def check_waitn_unlock(mod, rep, rid):
         if not ok:
             rep.violate(Violation(rid, c.where(), 'the mutex is released %s: a waker that takes the mutex in between signals before the caller is registered and the wake-up is lost'
                                   % ('before / while the objects are being registered' if not after_enq or in_loop else 'without all objects having been registered'), site='nsync_wait_n/unlock-before-registration'))
+
+def waitn_body(mod):
+    """the function that holds the body of nsync_wait_n: nsync_wait_n itself, or - when it has been split - the static helper in the same
+    file, reachable from it, that makes the registration (enqueue slot) calls"""
+    root = mod.func('nsync_wait_n')
+    if root is None or root.decl:
+        raise AnalysisBroken('C11: nsync_wait_n not found')
+    seen, work = {root.name}, [root]
+    cands = []
+    while work:
+        g = work.pop()
+        if _direct_slot_calls(mod, g, 'enqueue'):
+            cands.append(g)
+        for i in g.real_insts():
+            if i.op == 'call' and i.callee and i.callee not in seen:
+                h = mod.func(i.callee)
+                if h is not None and not h.decl and (h.file or '') == (root.file or ''):
+                    seen.add(h.name); work.append(h)
+    if root in cands or not cands:
+        return root
+    return cands[0]
 
 def _direct_slot_calls(mod, fn, slot):
     out = []
@@ -112,9 +133,7 @@ def check_dequeue_result(mod, rep, rid):
     tested, and the test guards a definition of the value the function returns.  Dequeue is the only point at which "was this call woken
     through object j" is decided under the object's lock; a report computed from anything earlier (e.g. the lock-free ready_time poll) turns
     a wake-up that lands between the last poll and the dequeue into a timeout, although the waker has already spent it on this call."""
-    fn = mod.func('nsync_wait_n')
-    if fn is None or fn.decl:
-        raise AnalysisBroken('%s: nsync_wait_n not found' % rid)
+    fn = waitn_body(mod)
     um = util.users_map(fn)
     rets = [i for i in fn.real_insts() if i.op == 'ret' and i.ops]
     def reaches_ret(ref, seen):
@@ -166,9 +185,7 @@ def check_dequeue_result(mod, rep, rid):
 def run(ctx, rep):
     mod = ctx.mod('C')
     K = ctx.probe
-    fn = mod.func('nsync_wait_n')
-    if fn is None or fn.decl:
-        raise AnalysisBroken('C11: nsync_wait_n not found')
+    fn = waitn_body(mod)
     rep.functions.add(fn.name)
     rep.rule('C11.R1', 'unlock after full registration; lock again iff unlocked')
     rep.rule('C11.R2', 'dequeue loop on every path after a registration attempt; bookkeeping freed iff allocated')
